@@ -5,7 +5,7 @@
     Trusted boundary: go-git (a branch = the entry list its recursive tree walker yields), the cat-file output
     format, bufio (any hand-over amount >= 1 per Read), the glob matchers (verdict functions, universally
     quantified), index.Builder's round trip. Submodule recursion is not configured (Options.Submodules = false). *)
-From ZV Require Import Lib.Base Model.DirWalk Model.Catfile Model.GitWalk Proofs.DirWalk Proofs.Catfile Proofs.GitWalk Proofs.GitPaths.
+From ZV Require Import Lib.Base Model.IgnoreFile Model.DirWalk Model.Catfile Model.GitWalk Proofs.DirWalk Proofs.Catfile Proofs.GitWalk Proofs.GitPaths.
 
 (** One entry per distinct (path, blob) ... *)
 Theorem C14_collect_one_per_key : forall bs, NoDup (map fst (collect bs)).
@@ -102,6 +102,20 @@ Proof.
   split; [vm_compute; reflexivity|].
   repeat constructor; cbn; intuition discriminate.
 Qed.
+
+(* the ignore file is looked up in each branch's own tree and read with ParseIgnoreFile's syntax (Model/IgnoreFile.v):
+   main has .sourcegraph/ignore = "# c\ndocs/\n" (blob 5), dev has none; glob engine here: prefix match on "docs/" *)
+Example C14_ignore_per_tree_nonvacuous :
+  let e p m i := {| ge_path := p; ge_mode := m; ge_id := i |} in
+  let dx := [100;111;99;115;47;120]%N in
+  let es := [e ignore_path GRegular 5%N; e [97]%N GRegular 1%N; e dx GRegular 2%N] in
+  let blobs := [(5%N, [35;32;99;10;100;111;99;115;47;10]%N); (1%N, [97;97;97]%N); (2%N, [98;98;98]%N)] in
+  let glob := fun (pat path : bytes) => bytes_eqb pat [100;111;99;115;47;42;42]%N && prefixb [100;111;99;115;47]%N path in
+  let main := gbranch_of glob blobs [109]%N es in
+  let dev := gbranch_of glob blobs [100]%N [e [97]%N GRegular 1%N; e dx GRegular 2%N] in
+  map (fun f => (fst (fst f), snd f)) (collect [main; dev])
+  = [ (ignore_path, [[109]%N]); ([97]%N, [[109]%N; [100]%N]); (dx, [[100]%N]) ].
+Proof. vm_compute. reflexivity. Qed.
 
 (* stream "1 blob 3\nabc\n2 missing\n3 blob 0\n\n": read 2 bytes, skip the rest, hit the missing entry, read past the empty blob *)
 Example C14_catfile_nonvacuous :
